@@ -231,6 +231,7 @@ class Interp:
         self.arg_values = arg_values or {}
         self.call_model = call_model       # optional: (call, interp[, path]) -> value or None
         self.store_model = None            # optional: (place text, value, interp, path)
+        self.stop_at = ()                  # callee suffixes at which a path is cut (end = 'stop')
         self.paths = []
 
     # ---- symbolic leaves -------------------------------------------------------------------------
@@ -518,6 +519,11 @@ class Interp:
                 args = [self.operand(a, p) for a in split_top(call[k + 1:-1])]
                 c = Call(callee, args, self._next())
                 c.raw = raw_call
+                if any(callee.endswith(x) for x in self.stop_at):
+                    p.calls.append(c)
+                    p.end = 'stop'
+                    self.paths.append(p)
+                    return
                 val = self.call_model(c, self, p) if self.call_model and self.call_model.__code__.co_argcount >= 3 else (self.call_model(c, self) if self.call_model else None)
                 p.calls.append(c)
                 p.env[dst] = c if val is None else val
